@@ -777,7 +777,8 @@ class Builder:
         exit_label = self._label_mgr.new_label(start_with="IF_EXIT")
         if_start: List[ICmd] = []
 
-        using_new_temp_reg = False
+        # A Future is loaded into a temporary register
+        using_new_temp_reg = isinstance(op, Future)
 
         cmds, cond_operand = self._get_condition_operand(op)
         if_start.extend(cmds)
@@ -940,6 +941,10 @@ class Builder:
             )
             if_start.append(branch)
             commands = if_start
+
+            # Inactivate the temporary registers
+            for reg in temp_regs_to_remove:
+                self._mem_mgr.remove_active_register(reg)
         else:
             assert False, "not supported"
         return commands  # type: ignore
@@ -1044,6 +1049,7 @@ class Builder:
             context=context,
             loop_register=loop_register,
         )
+        self._mem_mgr.remove_active_register(loop_register)
 
     def _build_cmds_breakpoint(
         self, action: BreakpointAction, role: BreakpointRole = BreakpointRole.CREATE
